@@ -758,7 +758,7 @@ class SortInterp(LibInterp):
             a, b = self._rank(pair.l[0]), self._rank(pair.l[1])
             c = (a < b) - (a > b)        # descending
             self.n_host += 1
-            return float(c) if fn.args[0].endswith('float') else c
+            return c * 0.5 if fn.args[0].endswith('frac') else float(c) if fn.args[0].endswith('float') else c
         return super().call_value_hook(fn, args, e)
 
 
@@ -780,7 +780,7 @@ def run_sort_functions(repo, libfuncs, rule='E6l'):
     it.oracles['value_args_model'] = lambda args, node: args[0]
     seqs = [[]] + [list(p) for n in (1, 2, 3, 4) for p in itertools.permutations(pool, n)][:200]
     for seq in seqs:
-        for mode in ('default', 'desc-int', 'desc-float'):
+        for mode in ('default', 'desc-int', 'desc-float', 'desc-frac'):
             counts['arraySort'] = counts.get('arraySort', 0) + 1
             it.n_host = 0
             arr = AList(list(seq))
